@@ -3,13 +3,13 @@ import vf
 
 HARNESS = dict(pkg_dir="index", run="TestVerifC01$", files=["index/zz_verif_c01_test.go"], n_quick=200, n_thorough=4000)
 RUNNER = dict(imports=["From ZV Require Import Lib.Base Model.SearchCore."], case_type="c01case", shard=200)
-RULE = ("random corpora (1-3 repositories in simple / compound shards, 1-10 documents over a small token alphabet with forced "
+RULE = ("random corpora (1-4 repositories in simple / compound shards, 28 % of the repositories of multi-repo shards tombstoned, 1-10 documents over a small token alphabet with forced "
         "repeats and overlaps, multi-byte runes, texts crossing the 100-rune sampling boundary, empty and < 3 rune files, skipped "
         "documents, repository and file tombstones, 0-5 sorted symbol sections per document via Document.Symbols: adjacent, at offset 0, up to the end, "
         "inside multi-byte runs, rarely empty) written with the real ShardBuilder and read back with NewSearcher, x query "
         "trees of depth <= 4 over all modelled atom kinds incl. Symbol{Substring} / Symbol{Regexp} (14 % of the atoms; patterns = a section text, inside "
         "one, straddling / just outside a section boundary) (patterns are substrings of real texts, case-flipped, boundary-straddling "
-        "or noise); non-trivial = the query selects a proper non-empty subset of the documents.")
+        "or noise; RepoSet / RepoIDs filters often contain every tombstoned repository plus as many alive ones as make matching = alive); non-trivial = the query selects a proper non-empty subset of the documents.")
 TRUSTED = ["correspondence harness harness/overlay/index/zz_verif_c01_test.go (generator, read-back of the index, serialiser, Go oracle)",
            "texts modelled as rune lists: byte-level operations of the code on valid UTF-8 are taken to coincide with the rune-level model",
            "regexp engine, unicode.ToLower and unicode.SimpleFold are external (Section variables; tables recorded from Go in the run)",
